@@ -81,8 +81,13 @@ class VectorContainer:
     @staticmethod
     def _locate_period_in_span_fallback(period: Hashable, span: np.ndarray) -> int:
         """Fallback (static) location method, should other `span`-indexing methods fail."""
-        # Convert `span` to a NumPy array of type `object` and locate matches
-        locations = np.asarray(np.asarray(span, dtype=object) == period).nonzero()
+        # Convert `span` to a NumPy array of type `object` and locate matches.
+        # Wrap `period` as a single object so that a sequence-like label
+        # (e.g. a tuple) is compared as a label, element by element, rather
+        # than broadcast against `span`
+        label = np.empty((), dtype=object)
+        label[()] = period
+        locations = np.asarray(np.asarray(span, dtype=object) == label).nonzero()
 
         # For now(?), only support one-dimensional array-likes
         assert len(locations) == 1
